@@ -51,6 +51,21 @@ def run(tier):
         if v["site"] == "handle_lookup_request":
             rep.violation(v["clause"], v["site"], v["cond"], {"line": v["line"], "event": lrecs[v["line"] - 1]})
     rep.coverage["replies_checked"] = lres["replies"]
+    # 2c. spec -> impl: TLC-generated behaviours of the table model replayed on the real engine, answers compared after every step
+    import json as _json
+    behaviours, rr = vlib.tlc_replays("Replay_Kademlia", "Replay_Kademlia.cfg", num=600 if big else 60, depth=13, seed_arg=vlib.seed())
+    rpath = os.path.join(wd, "replay.ndjson")
+    vlib.write_ndjson(rpath, behaviours)
+    out = vlib.run_harness(["c02", "replay", "in=" + rpath])
+    rres = _json.loads(out.strip().splitlines()[-1])
+    rep.coverage["replayed_behaviours"] = rres["behaviours"]
+    rep.coverage["replayed_steps"] = rres["steps"]
+    rep.coverage["replay_answers_compared"] = rres["compared"]
+    rep.traces += rres["behaviours"]
+    for m in rres["mismatches"]:
+        rep.violation("ReplayExact", "find_nodes", "any", m)
+    if rres["compared"] == 0:
+        raise vlib.ToolError("replay compared nothing")
     # 3. binding self-test: a corrupted answer and a dropped Add must be rejected by the acceptor
     if not rep.unknown_violations():
         selftest(recs, wd)   # binding self-test (skipped when the run already has mismatches to report)
